@@ -96,9 +96,9 @@ func (e *encoder) writeField(value reflect.Value, f *field) error {
 	}
 
 	invalid := f.t.BaseType().Invalid()
-	max := byte(value.Len())
-	if max > f.length {
-		max = f.length
+	max := f.length
+	if n := value.Len(); n < int(max) {
+		max = byte(n)
 	}
 	for i := byte(0); i < max; i++ {
 		elem := value.Index(int(i))
